@@ -2,7 +2,8 @@
 # usage: tools/runall.sh [quick|thorough] [ids...]  — runs checks on the current tree, validates evidence
 tier=${1:-quick}; shift
 ids=${@:-$(seq -f "C%02g" 1 20)}
-cd /verif
+V="$(cd "$(dirname "$0")/.." && pwd)"
+cd "$V"
 fail=0
 for id in $ids; do
   s=$(date +%s)
@@ -11,8 +12,8 @@ for id in $ids; do
   v=$(python3-vt - <<PY 2>&1
 import json,jsonschema
 try:
-    jsonschema.validate(json.load(open('/verif/evidence/$id.json')), json.load(open('/root/.vp/EVIDENCE.schema.json')))
-    d=json.load(open('/verif/evidence/$id.json'))
+    jsonschema.validate(json.load(open('$V/evidence/$id.json')), json.load(open('/root/.vp/EVIDENCE.schema.json')))
+    d=json.load(open('$V/evidence/$id.json'))
     print('evidence-ok ev=%d dn=%d tier=%s'%(d['coverage']['evaluations'],d['coverage']['distinct_nontrivial'],d['tier']))
 except Exception as ex:
     print('EVIDENCE-INVALID', str(ex)[:200])
